@@ -11,7 +11,7 @@
     short, long and visible alias the accessors return, the [nu-complete] definition with every possible value. *)
 From ClapModel Require Import Base.Bytes Complete.AotTree Complete.AotProofs Complete.BashProofs.
 From ClapModel Require Import Complete.FishModel Complete.FishProofs Complete.NushellModel Escape.EscapeModel.
-From ClapModel Require Complete.BuildTexts Complete.FishLexProofs.
+From ClapModel Require Complete.BuildTexts Complete.FishLexProofs Complete.BuildLinked.
 From Coq Require Import String Lia.
 Open Scope N_scope.
 Open Scope list_scope.
@@ -728,6 +728,21 @@ Proof.
   destruct (nu_pieces_covers b (dbuild (set_bin_name c bin) d) ws ns n Hr) as (dn & pre & post & E).
   exists (node_pieces (bin_of n) n dn (negb (is_nil ns))), pre, post. split; [rewrite <- E; reflexivity|].
   apply node_pieces_mentions.
+Qed.
+
+(** ... and, for a user tree none of whose subcommands carries a bin name of its own (a [Command] has none before it
+    is built) and a non-empty bin name, the block is declared under "bin n1 .. nk" ([BuildLinked.build_linked]) *)
+Theorem generate_nushell_covers_named c d bin : BuildLinked.nb c = true -> bin <> [] -> exists b s,
+  build (set_bin_name c bin) = Some b /\ generate_nushell c d bin = Some s /\
+  forall ws ns n, reach b ws ns n ->
+    exists blk pre post, s = nrender (pre ++ blk ++ post) /\
+                         node_mentions (bin ++ join_with [32] ns) n (negb (is_nil ns)) blk.
+Proof.
+  intros Hnb Hne. destruct (generate_nushell_covers c d bin) as (b & s & Eb & Eg & H).
+  exists b, s. split; [exact Eb|]. split; [exact Eg|]. intros ws ns n Hr.
+  destruct (BuildLinked.build_linked c bin b Hnb Hne Eb) as [Hbin Hl].
+  assert (Hn : bin_of n = bin ++ join_with [32] ns) by (unfold bin_of; rewrite (reach_bin b ws ns n Hr bin Hbin Hl); reflexivity).
+  rewrite <- Hn. exact (H ws ns n Hr).
 Qed.
 
 (** the property's wording in the class where an alias comes with its primary spelling: every short, long
